@@ -87,8 +87,8 @@ CHECKS = {
         technique='Lean 4 proof over a hand-written executable model, tied to /repo on every run by differential correspondence (compiled Lean driver vs real code on generated inputs) and regenerated source tables; independent Python oracle searches for failing inputs',
         ref='§4 C15'),
     'C16': dict(
-        text='17 theorems by induction over arbitrary edit histories (closure principles Cfg.Closed / Cfg.ClosedT), over the full alphabet of C03 edits, add_tag / remove_tag / clear_tags / set_tags, materialize_defaults and assign: last entry = current value and current tag set, strictly increasing unique sequence numbers, suspended edits are silent, one entry per write, history never read by build, location provider returns the user frame, table obligations on the regenerated exclusion list and store write sites; the constructor (incl. Annotated tags) establishes the invariant. Correspondence on generated histories incl. tag edits, annotated signatures and real threads; the location model runs on the real stack captured at the provider for edits made from generated frames.',
-        note=TB + 'Partial: C16_edit_modules_excluded_partial carries one open finding (tagging.py not excluded); update_callable and copy_with are outside the op set of the theorems (correspondence only).',
+        text='17 theorems by induction over arbitrary edit histories (closure principles Cfg.Closed / Cfg.ClosedT), over the full alphabet of C03 edits, add_tag / remove_tag / clear_tags / set_tags, materialize_defaults, assign, copy_with and update_callable: last entry = current value and current tag set, strictly increasing unique sequence numbers, suspended edits are silent, one entry per write, history never read by build, location provider returns the user frame, table obligations on the regenerated exclusion list and store write sites; the constructor (incl. Annotated tags) establishes the invariant. Correspondence on generated histories incl. tag edits, annotated signatures and real threads; the location model runs on the real stack captured at the provider for edits made from generated frames.',
+        note=TB + 'Partial: C16_edit_modules_excluded_partial carries one open finding (tagging.py not excluded).',
         technique='Lean 4 proof over a hand-written executable model, tied to /repo on every run by differential correspondence (compiled Lean driver vs real code on generated inputs) and regenerated source tables; independent Python oracle searches for failing inputs',
         ref='§4 C16'),
     'C17': dict(
